@@ -386,6 +386,20 @@ C19_ConnectCtxErr ==
   (fresh = "Ret" /\ T[l - 1].kind = "Connect" /\ T[l - 1].res # "nil" /\ \E e \in 1..(l - 2) : T[e].e = "CancelConnect")
      => T[l - 1].res \in {"canceled", "deadline"}
 
+\* ---- C04 (through the retrying / reconnecting client: every connection gets a new base client) --------------
+\* "answered by exactly one PUBACK ... written only after the handler returned" / "handed over ... when the matching PUBREL
+\* arrives, that PUBREL being answered by PUBCOMP": an acknowledgement the client writes for an application message it
+\* read on that connection, a handler registration having completed before the broker queued the message, comes after the
+\* hand-over of that message (seeded change c04g: the handler reaches the new base client only after Connect returned)
+C04_AckAfterHandover ==
+  (fresh = "Write" /\ ~wire[NW].req /\ wire[NW].p \in {"PUBACK", "PUBCOMP"}) =>
+    \A i \in 1..Len(sends) :
+      (/\ sends[i].p = "PUBLISH" /\ sends[i].tag > 0 /\ sends[i].g = wire[NW].g /\ sends[i].id = wire[NW].id
+       /\ sends[i].qos = (IF wire[NW].p = "PUBACK" THEN 1 ELSE 2)
+       /\ (\E r \in 1..Len(reads) : reads[r].p = "PUBLISH" /\ reads[r].tag = sends[i].tag /\ reads[r].g = sends[i].g)
+       /\ (\E k \in 1..(Len(handles) \div 2) : handles[2 * k].seq < sends[i].seq))
+      => \E h \in 1..Len(handled) : handled[h].tag = sends[i].tag
+
 \* ---- C17 ---------------------------------------------------------------
 \* Handle calls are made by one goroutine: k-th call = handles[2k-1] (call) and handles[2k] (ret).
 NH == Len(handles) \div 2
@@ -434,7 +448,7 @@ Obs == [
   C08_StableSubs |-> C08_StableSubs, C08_NoResubUnlessDue |-> C08_NoResubUnlessDue,
   C12_DupFlag |-> C12_DupFlag, C12_SameOnRetx |-> C12_SameOnRetx, C12_NoPubAfterRel |-> C12_NoPubAfterRel,
   C12_NoQoS0Retx |-> C12_NoQoS0Retx, C12_RelHasPublish |-> C12_RelHasPublish, C12_AsSubmitted |-> C12_AsSubmitted, C15_PresetIdKept |-> C15_PresetIdKept, C05_PacketsWellFormed |-> C05_PacketsWellFormed, C19_TimeoutTyped |-> C19_TimeoutTyped, C19_ConnectCtxErr |-> C19_ConnectCtxErr,
-  C17_RightHandler |-> C17_RightHandler, C17_AtMostOnce |-> C17_AtMostOnce, C17_NoneDropped |-> C17_NoneDropped, C17_HandleReturns |-> C17_HandleReturns,
+  C04_AckAfterHandover |-> C04_AckAfterHandover, C17_RightHandler |-> C17_RightHandler, C17_AtMostOnce |-> C17_AtMostOnce, C17_NoneDropped |-> C17_NoneDropped, C17_HandleReturns |-> C17_HandleReturns,
   C18_TimeoutClosesAndReports |-> C18_TimeoutClosesAndReports, C18_NoStall |-> C18_NoStall ]
 
 Failing == {n \in DOMAIN Obs : ~Obs[n]}
